@@ -344,6 +344,12 @@ C       IF (DABS(RAT-1D0).GT.1D-6) PRINT 8004, AXI
  8004 FORMAT('EQUAL-SURFACE-AREA-SPHERE RADIUS=',F8.4)
       A=RAT*AXI
       XEV=2D0*P*A/LAM
+C  too large (or not a number): refuse before the conversion to INTEGER,
+C  which overflows for a size parameter beyond 2**31
+      IF (.NOT.(XEV+4.05D0*XEV**0.333333D0.LT.DFLOAT(NPN1))) THEN
+         IERR=1
+         RETURN
+      ENDIF
       IXXX=XEV+4.05D0*XEV**0.333333D0
       INM1=MAX0(4,IXXX)
 C       IF (INM1.GE.NPN1) PRINT 7333, NPN1
